@@ -105,7 +105,7 @@ def gen(rng, tier, idx):
             if rng.random() < 0.5 and len(c['shape']) >= 3:
                 c = _route_rich(rng, c)
         else:
-            c = c03._gen_plain(rng, tier, idx)
+            c = c03._gen_plain(rng, tier, idx, rich=rng.random() < 0.4)
             c['mgr'] = 'swapper'
         c['kind'] = 'layout'
         c['salted'] = rng.random() < 0.7
